@@ -246,11 +246,11 @@ def model_script(case, trans):
             break
         r, tab = trans.results[i]
         w = op.split(" ")[0]
-        if w in ("restrict", "dup", "xml", "xmlt"):
+        if w in ("restrict", "dup", "xml", "xmlt", "xmlnf"):
             if not r.startswith("R %s rc=0 " % w) or tab is None:
                 continue
             out += table_model_lines(tab, stmap)
-            out.append({"restrict": "retopo", "dup": "dupsw", "xml": "xmlsw", "xmlt": "xmltsw"}[w])
+            out.append({"restrict": "retopo", "dup": "dupsw", "xml": "xmlsw", "xmlt": "xmltsw", "xmlnf": "xmlnfsw"}[w])
         else:
             out.append(op)
         idx.append(i)
@@ -916,6 +916,48 @@ class Ref:
                 return fail("allow")
             return Exp("R allow rc=0 err=OK")
         return fail("allow")        # 0, LOCAL_RESTRICTIONS on a topology that is not this system, combinations
+
+    def x_xmlnf(self, t):
+        """XML round trip whose reload drops HWLOC_TOPOLOGY_FLAG_NO_MEMATTRS: every attribute the application registered
+        (ids 0,1,... on the exporting side) arrives, after the 8 predefined ones, with its values"""
+        if len(t) != 1:
+            raise BadCase()
+        if not self.nomem:
+            def ap0(r, tab):
+                if tab is not None and r.startswith("R xmlnf rc=0 "):
+                    self.retopo(tab, "xml")
+            return Exp("R xmlnf rc=0 err=OK", apply=ap0, info={"sametable": 1})
+
+        def ap(r, tab):
+            if tab is None or not r.startswith("R xmlnf rc=0 "):
+                return
+            for id_ in range(len(self.attrs)):
+                self.touch(id_)
+            old_attrs, old_ent = self.attrs, self.ent
+            self.nomem = False
+            self.attrs = [list(a) for a in PREDEF]
+            self.ent = {i: [] for i in range(len(PREDEF))}
+            self.valid, self.cnt, self.alloc = {}, {}, {}
+            remap = {}
+            for i, a in enumerate(old_attrs):
+                nm, fl = xml_safe_token(a[0]), a[1]
+                j = next((k for k, b in enumerate(self.attrs) if b[0] == nm), None)
+                if j is None:
+                    self.attrs.append([nm, fl])
+                    j = len(self.attrs) - 1
+                    self.ent[j] = old_ent.get(i, [])
+                    remap[i] = j
+                    continue
+                self.dupos_attrs.add(j)                   # merged into an existing attribute: left to the model diff
+                if j >= 2 and self.attrs[j][1] == fl:
+                    for tg in old_ent.get(i, []):
+                        for k in tg.keys:
+                            self.do_set(j, tg.gp, tg.type, k[0], k[1], count=False)
+            self.taint = {(remap[i], g) for (i, g) in self.taint if i in remap}
+            self.unchecked = {(remap[i], g) for (i, g) in self.unchecked if i in remap}
+            self.stats["xml_nomem_to_plain"] += 1
+            self.retopo(tab, "xml")
+        return Exp("R xmlnf rc=0 err=OK", apply=ap, info={"sametable": 1})
 
     def x_xmlt(self, t):
         """XML round trip with HWLOC_MEMTIERS* variables set during the reload: the memory attributes
@@ -1605,6 +1647,8 @@ class OpGen:
             w["allow"] = 5
         if stream == "allow":       # hwloc_topology_allow between the memattr calls (INCLUDE_DISALLOWED topologies)
             w["allow"] = 16
+        if ref.nomem:
+            w["xmlnf"] = 3
         if stream == "names":       # attribute names: near-collisions, lookups by name, XML round trips keep every attribute apart
             w = {"reg": 22, "getbyname": 22, "getname": 6, "getflags": 3, "set": 22, "get": 8, "targets": 6, "bestt": 5, "inits": 3,
                  "besti": 2, "xml": 8, "dup": 2, "restrict": 1}
@@ -1653,6 +1697,8 @@ class OpGen:
         rng, attrs = self.rng, self.ref.attrs
         if rng.random() < 0.08:
             return rng.choice([0, 1])
+        if not self.ref.nomem and not self.focus:
+            self.focus = rng.sample(range(2, 8), 2)       # the topology was reloaded without NO_MEMATTRS
         ids = self.focus + list(range(8, len(attrs))) if not self.ref.nomem else (list(range(len(attrs))) or [0])
         if want_ni is not None:
             sel = [i for i in ids if i < len(attrs) and bool(attrs[i][1] & NI) == want_ni]
@@ -1936,6 +1982,9 @@ class OpGen:
         n = sum(1 << o for o in oss if rng.random() < 0.6) or (1 << rng.choice(oss))
         k = rng.random()
         return "allow %s %s 4" % (fset(c) if k < 0.85 else "-", fset(n) if k > 0.5 else "-")
+
+    def g_xmlnf(self):
+        return "xmlnf"
 
     def g_dup(self):
         return "dup"
@@ -2231,7 +2280,7 @@ def gen_case(rng, proc, name, stream, first=False):
                             cand += ["inits %d %d 0 4 0 1" % (id_, gp), "besti %d %d 0" % (id_, gp)]
                         ops.insert(0, rng.choice(cand))
                         break
-            if line.split(" ")[0] in ("restrict", "dup", "xml", "xmlt"):
+            if line.split(" ")[0] in ("restrict", "dup", "xml", "xmlt", "xmlnf"):
                 if tab is not None and r.startswith("R restrict rc=0"):
                     og.gone |= topo.root & ~tab.root
                 og.refresh()
